@@ -815,18 +815,21 @@ class Exec:
             outs.append(('next', s, None))
         return outs
     def s_AugAssign(self, n, st):
-        cur = self.eval(ast.Name(id=n.target.id, ctx=ast.Load()), st) if isinstance(n.target, ast.Name) else None
-        if cur is None: raise Unsupported('augmented assignment to a non-name target')
+        load = ast.Name(id=n.target.id, ctx=ast.Load()) if isinstance(n.target, ast.Name) else (ast.Attribute(value=n.target.value, attr=n.target.attr, ctx=ast.Load()) if isinstance(n.target, ast.Attribute) else None)
+        if load is None: raise Unsupported('augmented assignment target')
         outs = []
-        for s, l in cur:
+        for s, l in self.eval(load, st):
             for s2, r in self.eval(n.value, s):
                 if isinstance(n.op, ast.Add): v = VInt(self.as_int(l) + self.as_int(r))
                 elif isinstance(n.op, ast.Sub): v = VInt(self.as_int(l) - self.as_int(r))
-                elif isinstance(n.op, ast.BitOr): v = VBool(z3.Or(self.truth(l), self.truth(r)))
+                elif isinstance(n.op, ast.BitOr):
+                    if isinstance(l, VObj) and isinstance(r, VObj) and not self.bool_fields_hint(n): v = VObj(z3.Function('bitor', Obj, Obj, Obj)(l.t, r.t))     # set / frozenset union
+                    else: v = VBool(z3.Or(self.truth(l), self.truth(r)))
                 elif isinstance(n.op, ast.BitAnd): v = VBool(z3.And(self.truth(l), self.truth(r)))
                 else: raise Unsupported('augmented operator ' + type(n.op).__name__)
-                outs.append(('next', s2.set(n.target.id, v), None))
+                outs.append(('next', self.assign(s2, n.target, v), None))
         return outs
+    def bool_fields_hint(self, n): return False
     def s_AnnAssign(self, n, st):
         if n.value is None: return [('next', st, None)]
         return [('next', self.assign(s, n.target, v), None) for s, v in self.eval(n.value, st)]
